@@ -53,7 +53,10 @@ _l("C06", "4 C06", "MC_Ledger proves AtMostOnce / PendingIffHeld over all chains
    "placements (same block, next, across unrated blocks, after execution / rejection, while pending) are validated by TLC block by block (relation, holding and "
    "execution at most once per entry hash, holding window [last rated, h)) and compared with the same chain without duplicates (DupInert).")
 _l("C07", "4 C07", "MC_Ledger proves ConvTiming (executed at the first later rated block, never pending past it) and ValueOK; real conversions over 7 pairs, "
-   "amounts 1..1e11, rates 1..9e15, PIP-10 off/on/switching, gaps in the averaging window are validated exactly (Big.tla): execution height, to_amount, balances.")
+   "amounts 1..1e11, rates 1..9e15, PIP-10 off/on/switching, gaps in the averaging window are validated exactly (Big.tla): execution height, to_amount, balances. "
+   "Kernel: MC_Convert proves floor exactness, value non-increase, never more than at spot rates, no round-trip gain, monotonicity and the refusal rule of "
+   "Ledger.Convert over all small arguments; the real conversions.Convert is called on 31 104 argument tuples around the built-in PIP-10 activation and every "
+   "result is compared with Ledger.Convert by TLC (Trace_Convert).")
 _l("C08", "4 C08", "Sync.tla (TLC, with fairness) proves <>(synced = Tip) and no deadlock given total block application; hostile content (malformed / oversized / "
    "partial entries on all three chains, repeated entry hashes in every state) is served to the real daemon, which must commit every block (wedge and crash "
    "detectors); surviving traces are validated by TLC (garbage is inert).", technique="TLA+ spec (Sync.tla liveness, LedgerBlock totality) + TLC + adversarial scenario replay with wedge/crash detection")
